@@ -374,3 +374,7 @@ def run(pm, ctx):
     run_decisions(pm, ctx, 'C16-RD', OWN['C16'])
     from .. import exprdrift
     exprdrift.run(pm, ctx, 'C16-RE', OWN['C16'])
+    from ..conddrift import run_calls
+    run_calls(pm, ctx, 'C16-RC', OWN['C16'])
+    from .. import memo
+    memo.run(pm, ctx, 'C16-MK', OWN['C16'])
